@@ -202,7 +202,7 @@ mod model {
     /// let `force_timeouts` wake the receivers of this channel
     fn register_waker<T: 'static>(sh: &Arc<Shared<T>>) {
         let sh = sh.clone();
-        WAKERS.with(|w| w.borrow_mut().push(Box::new(move || sh.cv.notify_all())));
+        WAKERS.with(|w| w.borrow_mut().push(std::rc::Rc::new(move || sh.cv.notify_all()) as std::rc::Rc<dyn Fn()>));
     }
 
     pub fn reset_ids() {
@@ -216,7 +216,26 @@ mod model {
         /// timeouts the simulator has decided must fire (idle-gap fault): the next receivers that wait on an
         /// empty queue with `recv_timeout` time out at once, one per unit
         static FORCED: std::cell::Cell<u32> = const { std::cell::Cell::new(0) };
-        static WAKERS: std::cell::RefCell<Vec<Box<dyn Fn()>>> = const { std::cell::RefCell::new(Vec::new()) };
+        static WAKERS: std::cell::RefCell<Vec<std::rc::Rc<dyn Fn()>>> = const { std::cell::RefCell::new(Vec::new()) };
+    }
+
+    thread_local! {
+        /// fault "slow worker": called whenever a receiver takes a message out of a queue (the simulator lets
+        /// seconds of worker time pass there)
+        static ON_RECEIVE: std::cell::RefCell<Option<std::rc::Rc<dyn Fn()>>> = const { std::cell::RefCell::new(None) };
+    }
+
+    /// Install (or remove) the hook that runs each time a message is taken out of a queue. Stays in force until
+    /// removed; `reset_ids` does not touch it.
+    pub fn set_on_receive(f: Option<std::rc::Rc<dyn Fn()>>) {
+        ON_RECEIVE.with(|h| *h.borrow_mut() = f);
+    }
+
+    fn on_receive() {
+        let f = ON_RECEIVE.with(|h| h.borrow().clone());
+        if let Some(f) = f {
+            f();
+        }
     }
 
     thread_local! {
@@ -227,11 +246,16 @@ mod model {
     /// Stall (or release) every receiver of this execution: a stalled receiver neither receives nor times out.
     pub fn stall(on: bool) {
         STALL.with(|c| c.set(on));
-        WAKERS.with(|w| {
-            for f in w.borrow().iter() {
-                f();
-            }
-        });
+        wake_all();
+    }
+
+    /// notify every receiver; the list is copied first because a notification is a scheduling point and the thread
+    /// that runs next may create a channel
+    fn wake_all() {
+        let v: Vec<std::rc::Rc<dyn Fn()>> = WAKERS.with(|w| w.borrow().clone());
+        for f in v {
+            f();
+        }
     }
 
     fn stalled() -> bool {
@@ -241,11 +265,24 @@ mod model {
     /// Simulated passage of idle time: `n` pending `recv_timeout` waits on empty queues time out now.
     pub fn force_timeouts(n: u32) {
         FORCED.with(|c| c.set(c.get() + n));
-        WAKERS.with(|w| {
-            for f in w.borrow().iter() {
-                f();
+        wake_all();
+    }
+
+    /// Time passes: one receiver that waits with a finite timeout on an empty queue times out (now, or the next one
+    /// that comes to wait). Called over and over by the simulation's clock thread, so that a finite timeout always
+    /// fires in the end and only a wait without one can last forever.
+    pub fn tick() {
+        let fire = FORCED.with(|c| {
+            if c.get() == 0 {
+                c.set(1);
+                true
+            } else {
+                false
             }
         });
+        if fire {
+            wake_all();
+        }
     }
 
     pub fn unbounded<T: 'static>() -> (Sender<T>, Receiver<T>) {
@@ -342,7 +379,9 @@ mod model {
             }
         }
 
-        pub fn recv_timeout(&self, _timeout: Duration) -> Result<T, RecvTimeoutError> {
+        pub fn recv_timeout(&self, timeout: Duration) -> Result<T, RecvTimeoutError> {
+            // a timeout of a century or more is "do not poll": such a wait ends by a message or a disconnect only
+            let never = timeout >= Duration::from_secs(100 * 365 * 86_400);
             let mut st = self.sh.st.lock().unwrap();
             while stalled() {
                 st = self.sh.cv.wait(st).unwrap();
@@ -352,6 +391,7 @@ mod model {
                 if let Some(m) = st.queue.pop_front() {
                     st.waiting -= 1;
                     ev(4, st.id, |e| e.recvs += 1);
+                    on_receive();
                     drop(st);
                     self.sh.cv.notify_all();
                     return Ok(m);
@@ -362,7 +402,7 @@ mod model {
                     return Err(RecvTimeoutError::Disconnected);
                 }
                 // empty queue, senders alive: the timer fires if the simulator says idle time has passed, or may fire
-                let forced = FORCED.with(|c| {
+                let forced = !never && FORCED.with(|c| {
                     if c.get() > 0 {
                         c.set(c.get() - 1);
                         true
@@ -370,7 +410,7 @@ mod model {
                         false
                     }
                 });
-                if forced || self.coin() {
+                if forced || (!never && self.coin()) {
                     st.waiting -= 1;
                     ev(5, st.id, |e| e.timeouts_empty += 1);
                     return Err(RecvTimeoutError::Timeout);
@@ -389,6 +429,7 @@ mod model {
                 if let Some(m) = st.queue.pop_front() {
                     st.waiting -= 1;
                     ev(4, st.id, |e| e.recvs += 1);
+                    on_receive();
                     drop(st);
                     self.sh.cv.notify_all();
                     return Ok(m);
@@ -408,6 +449,7 @@ mod model {
             }
             if let Some(m) = st.queue.pop_front() {
                 ev(4, st.id, |e| e.recvs += 1);
+                    on_receive();
                 drop(st);
                 self.sh.cv.notify_all();
                 return Ok(m);
